@@ -19,13 +19,14 @@ class Q:
     def __init__(s, name, harness, shim, defs=None, config='real', cxxdefs=(), unwind=8, unwindset=None,
                  models=('core', 'libc'), stubs=(), allow_aborts=(), ub=False, timeout=None, mem_gb=6,
                  tiers=('quick', 'thorough'), cbmc_extra=(), roots=None, noinline=False, bound=None,
-                 object_bits=None, replay=True, note=None, loops=(), hunwind=None, heap_cap=64, solver=None):
+                 object_bits=None, replay=True, note=None, loops=(), hunwind=None, heap_cap=64, solver=None, twice=False):
         s.name = name; s.harness = harness; s.shim = shim; s.defs = dict(defs or {}); s.config = config
         s.cxxdefs = tuple(cxxdefs); s.unwind = unwind; s.unwindset = dict(unwindset or {})
         s.models = tuple(models); s.stubs = tuple(stubs); s.allow_aborts = tuple(allow_aborts); s.ub = ub
         s.timeout = timeout; s.mem_gb = mem_gb; s.tiers = tuple(tiers); s.cbmc_extra = tuple(cbmc_extra)
         s.roots = roots; s.noinline = noinline; s.bound = bound or {}; s.object_bits = object_bits
         s.replay = replay; s.note = note; s.solver = solver; s.heap_cap = heap_cap   # capacity in bytes of every modelled heap block (vp_rt.h)
+        s.twice = twice          # C20: run the harness body twice (rt/model_twice.c), module-level state must be identical after the second run
         s.hunwind = hunwind      # bound for loops of the harness and of the environment models (default: unwind)
         s.loops = tuple(loops)   # [(regex on the loop name 'function.N', bound)]: per-loop bounds; everything else gets `unwind`
 
@@ -134,6 +135,7 @@ def all_defs(ctx, q):
     _, cfg = ctx.config(q.config)
     d = {'VP_SSO': cfg['SSO'], 'VP_STACK': cfg['STACK'], 'VP_SSO_SIZE': cfg['SSO_SIZE'], 'VP_HEAP_CAP': q.heap_cap}
     d.update(q.defs)
+    if q.twice: d['VP_TWICE'] = 1
     return d
 
 def prepare_query(ctx, q):
@@ -158,10 +160,10 @@ def prepare_query(ctx, q):
 def cbmc_cmd(ctx, q, prep):
     defs = all_defs(ctx, q)
     files = [os.path.join(VERIF, 'harness', q.harness), os.path.join(prep['dir'], 'k.c')]
-    for m in ('inputs',) + tuple(q.models): files.append(os.path.join(VERIF, 'rt', 'model_%s.c' % m))
+    for m in ('inputs',) + tuple(q.models) + (('twice',) if q.twice else ()): files.append(os.path.join(VERIF, 'rt', 'model_%s.c' % m))
     cmd = ['cbmc'] + files + ['-I', prep['dir'], '-I', os.path.join(VERIF, 'rt'), '-I', os.path.join(VERIF, 'harness')]
     for k, v in defs.items(): cmd += ['-D', '%s=%s' % (k, v)]
-    cmd += ['--function', 'vp_harness_main', '--unwind', str(q.unwind), '--unwinding-assertions',
+    cmd += ['--function', 'vp_twice_main' if q.twice else 'vp_harness_main', '--unwind', str(q.unwind), '--unwinding-assertions',
             '--no-malloc-may-fail', '--drop-unused-functions', '--no-pointer-primitive-check',
             '--trace', '--json-ui', '--verbosity', '8']
     if q.unwindset and not (q.loops or q.hunwind):
@@ -327,7 +329,13 @@ def build_native(ctx, q, prep, sanitize=True):
     hc = ['gcc', '-O1', '-g', '-DVP_NATIVE_REAL', '-Wno-incompatible-pointer-types', '-Wno-int-conversion'] + san + ['-I', prep['dir'], '-I', os.path.join(VERIF, 'rt'), '-I', os.path.join(VERIF, 'harness')] + ['-D%s=%s' % kv for kv in defs.items()] + ['-c', os.path.join(VERIF, 'harness', q.harness), '-o', hobj]
     r = run(hc, timeout=300)
     if r['rc'] != 0: return ('error', r['err'][-2000:])
-    r = run(['g++'] + san + [hobj] + objs + ['-o', exe, '-pthread', '-rdynamic', '-ldl'], timeout=300)
+    extra = []
+    if q.twice:
+        tobj = exe + '_twice.o'
+        r = run(hc[:-4] + ['-c', os.path.join(VERIF, 'rt', 'model_twice.c'), '-o', tobj], timeout=300)
+        if r['rc'] != 0: return ('error', r['err'][-2000:])
+        extra = [tobj]
+    r = run(['g++'] + san + [hobj] + extra + objs + ['-o', exe, '-pthread', '-rdynamic', '-ldl'], timeout=300)
     if r['rc'] != 0: return ('error', r['err'][-2000:])
     return ('ok', exe)
 
